@@ -89,6 +89,7 @@ class World:
     self.cms = []          # open config_scope context managers
     self.unlock_cms = []
     self.nonlits = {}
+    self.call_log = []
     self.step = 0
     self._reg_before = dict(config._REGISTRY.items())
     self._inv_before = dict(config._INVERSE_REGISTRY)
@@ -228,6 +229,8 @@ class World:
     if t == 'ref':
       text = '@' + '/'.join(list(v[2]) + [dotted(v[1])]) + ('()' if v[3] == 'call' else '')
       return self.config.parse_value(text)
+    if t == 'pct':
+      return self.config.parse_value('%' + dotted(v[1]))
     if t == 'list':
       return [self.to_real(x) for x in v[1]]
     if t == 'tuple':
@@ -422,17 +425,27 @@ class World:
     scoped = (scope + '/' if scope else '') + sel
     api = o.get('api', 'tuple')
     res = {}
+    if api in ('text', 'block'):
+      try:
+        self.literal_text(o['val'])
+      except AdapterError:
+        api = 'tuple'          # a value without a text form can only be bound programmatically
     try:
       if api == 'tuple':
         gin.bind_parameter((scope, sel, param), self.to_real(o['val']))
       elif api == 'string':
         gin.bind_parameter('%s.%s' % (scoped, param), self.to_real(o['val']))
       elif api == 'text' and sel == 'gin.macro' and param == 'value':
-        gin.parse_config('%s = %s' % (scope, self.literal_text(o['val'])))       # macro definition statement
+        # macro definition statement; skip_unknown never concerns macros (rotated to exercise that)
+        skip = [False, True, [scope], ['nothing.here']][self.step % 4]
+        gin.parse_config('%s = %s' % (scope, self.literal_text(o['val'])), skip_unknown=skip)
       elif api == 'text':
-        gin.parse_config('%s.%s = %s' % (scoped, param, self.literal_text(o['val'])))
+        # the target is registered, so every form of skip_unknown must leave the statement applied
+        skip = [False, True, [sel], ('nothing.here',), {sel}][self.step % 5]
+        gin.parse_config('%s.%s = %s' % (scoped, param, self.literal_text(o['val'])), skip_unknown=skip)
       elif api == 'block':
-        gin.parse_config('%s:\n  %s = %s\n' % (scoped, param, self.literal_text(o['val'])))
+        skip = [False, True, [sel]][self.step % 3]
+        gin.parse_config('%s:\n  %s = %s\n' % (scoped, param, self.literal_text(o['val'])), skip_unknown=skip)
       else:
         raise AdapterError('unknown binding api %r' % api)
       res['status'] = 'ok'
@@ -447,6 +460,7 @@ class World:
     kwargs = {k: self.to_real(v) for k, v in sorted(ckw)}
     self.evals = []
     self.ran = False
+    call_scope = list(self.gin.current_scope())
     res = dict(delivered=[], va=[], kw=[], missing=[], ran=False, evals=[])
     try:
       r = fn(*args, **kwargs)
@@ -474,6 +488,9 @@ class World:
         res['missing_for'] = m.group(1)
     if 'evals' not in res or not res['evals']:
       res['evals'] = self._evals_to_spec()
+    self.call_log.append(dict(scope=call_scope, sel=sel, pargs=pargs, ckw=ckw, status=res['status'],
+                              evals=[core.jdump(_norm_fnref([e['sel'], e['scope'], norm_pairs(e['delivered']),
+                                                             e['va'], norm_pairs(e['kw'])])) for e in res['evals']]))
     return res
 
   def _evals_to_spec(self):
@@ -609,7 +626,7 @@ def compare_state(want, got, fields=ALL_FIELDS):
   return None
 
 
-def replay(beh, fields=ALL_FIELDS):
+def replay(beh, fields=ALL_FIELDS, at_end=None):
   """Steps one exported GinCore behaviour through the real gin.
   Returns None if the code conforms, else a dict describing the first divergence."""
   world = World(beh[0]['reg'])
@@ -627,9 +644,23 @@ def replay(beh, fields=ALL_FIELDS):
       d = compare_state(spec_projection(st), world.project(), fields)
       if d:
         return dict(step=i, action=o['op'], clause='state.' + d[0], expected=d[1], got=d[2], args=_args(o))
+    if at_end is not None:
+      return at_end(world, beh)
     return None
   finally:
     world.close()
+
+
+def representable(v):
+  """_is_literally_representable on specification values."""
+  t = v[0]
+  if t in ('lit', 'ref'):
+    return True
+  if t in ('list', 'tuple'):
+    return all(representable(x) for x in v[1])
+  if t == 'dict':
+    return all(representable(k) and representable(x) for k, x in v[1])
+  return False
 
 
 def _args(o):
